@@ -51,7 +51,7 @@ func (c03) Build(tier string, seed uint64) []any {
 	}
 	per := 14
 	if th {
-		per = 150
+		per = 600
 	}
 	sizes := []int{1, 2, 3, 4, 5, 7, 8, 9, 15, 16, 17, 31, 32, 33, 63, 64, 65}
 	big := []int{255, 256, 257, 511, 512}
@@ -181,7 +181,7 @@ func (c07) Build(tier string, seed uint64) []any {
 			}
 			n := 1
 			if th {
-				n = 6
+				n = 30
 			}
 			if near <= 3 || near == maxNear(p) {
 				n *= 2
